@@ -157,11 +157,20 @@ def observe(world, cat, numpy):
     """All gridding observables as plain python; Raised('ValueError') -> 'rej'."""
     kw = {} if world.bound else {'mag_bins': numpy.array(world.edges)}
     out = {}
-    r = guarded(cat.spatial_magnitude_counts, **kw)
+    def asked_twice(fn, **k):
+        # the array a counting call hands out belongs to the caller: it is overwritten, and the call made again
+        first = guarded(fn, **k)
+        if not isinstance(first, Raised):
+            try:
+                numpy.asarray(first)[...] = -3
+            except (ValueError, TypeError):
+                pass
+        return guarded(fn, **k)
+    r = asked_twice(cat.spatial_magnitude_counts, **kw)
     out['smc'] = r
-    out['sc'] = guarded(cat.spatial_counts)
-    out['occ'] = guarded(cat.spatial_event_probability)
-    out['mc'] = guarded(cat.magnitude_counts, **kw)
+    out['sc'] = asked_twice(cat.spatial_counts)
+    out['occ'] = asked_twice(cat.spatial_event_probability)
+    out['mc'] = asked_twice(cat.magnitude_counts, **kw)
     # the same histogram asked for together with the bins it refers to
     rb = guarded(cat.magnitude_counts, retbins=True, **kw)
     if not isinstance(out['mc'], Raised):
